@@ -497,9 +497,9 @@ def unnum(n, alpha):
 PLAN = {
     # cfg, TLC workers, driver processes, pairs
     "quick": [("C12_quick_chars4", 3, 6, False), ("C12_quick_toks", 3, 5, True), ("C12_quick_chars", 2, 5, True),
-              ("C12_quick_strat", 2, 2, False), ("C12_quick_alts", 1, 2, True)],
+              ("C12_quick_strat", 2, 2, False), ("C12_quick_stratci", 2, 2, False), ("C12_quick_alts", 1, 2, True)],
     "thorough": [("C12_deep_chars5", 4, 8, False), ("C12_deep_toks", 4, 8, True), ("C12_deep_chars", 4, 8, True),
-                 ("C12_deep_toks2", 2, 4, True), ("C12_deep_alts", 2, 4, True), ("C12_deep_strat", 2, 2, False),
+                 ("C12_deep_toks2", 2, 4, True), ("C12_deep_alts", 2, 4, True), ("C12_deep_strat", 2, 2, False), ("C12_quick_stratci", 2, 2, False),
                  ("C12_deep_chars_p6", 2, 6, False), ("C12_deep_toks_p6", 2, 6, False)],
 }
 SELF = {"quick": [("C12_quick_self", 1)], "thorough": [("C12_deep_self", 2), ("C12_deep_self2", 2)]}
